@@ -14,6 +14,7 @@ func init() {
 			"PV-CONST: strings.Cut at the first space, time.RFC3339Nano, Body = rest, both timestamps from the parsed time; missing space is an error",
 			"ERR-CHAIN: Next stores parseNext's error into the field Err returns; records carry the container's resource",
 			"ERR-STICKY: that field is never overwritten once it holds a failure (a consumer that asks again after `false` cannot clear it)",
+			"ERR-LOOP: every consumer loop of the decoded stream asks Err() before reporting success",
 		},
 		NotDecided: []string{"that io.ReadFull/io.CopyN/time.Parse meet their documented contracts", "nanosecond exactness of pcommon.NewTimestampFromTime", "frames larger than memory"},
 		Rules: func(r *Run) {
